@@ -89,32 +89,37 @@ NewClient ==
 ----------------------------------------------------------------------------
 (* API calls.  ApiCall registers the call; ApiEnter (silent) takes the client's mutex. *)
 ApiCall(a, m, arg) ==
-  /\ waiting' = waiting \cup {[a |-> a, m |-> m, arg |-> arg]}
+  /\ waiting' = waiting \cup {[a |-> a, m |-> m, arg |-> arg, refused |-> FALSE]}
   /\ UNCHANGED <<link, up, down, obj, proc, inside, sessC, futs, fname, nfut, cfg, obs>>
 
 ApiEnter(w) ==
-  /\ inside = NoCall /\ w \in waiting
-  /\ waiting' = waiting \ {w}
+  /\ inside = NoCall /\ w \in waiting /\ ~w.refused
   /\ LET ok == CASE w.m = "connect" -> obj.state = "init"
                  [] w.m \in {"publish", "subscribe", "unsubscribe", "disconnect"} -> obj.state = "connected"
                  [] w.m = "close" -> obj.state # "init"
-     IN inside' = [a |-> w.a, m |-> w.m, pc |-> IF ok THEN "start" ELSE "refuse", id |-> 0, fut |-> 0, arg |-> w.arg]
+     IN IF ok THEN /\ waiting' = waiting \ {w}
+                   /\ inside' = [a |-> w.a, m |-> w.m, pc |-> "start", id |-> 0, fut |-> 0, arg |-> w.arg]
+        \* a call refused by the state check has released the mutex again when this step is over; its return is logged some time later
+        ELSE /\ waiting' = (waiting \ {w}) \cup {[w EXCEPT !.refused = TRUE]}
+             /\ UNCHANGED inside
   /\ UNCHANGED <<link, up, down, obj, proc, sessC, futs, fname, nfut, cfg, obs>>
 
 In(m, pc) == inside.m = m /\ inside.pc = pc
 
 \* the call returns; a future it created gets the harness's name
 ApiRet(a, m, err, f) ==
-  /\ inside.a = a /\ inside.m = m
-  /\ \/ inside.pc = "refuse" /\ err # "" /\ f = ""
-     \/ inside.pc = "done" /\ (err = "" \/ m \in {"close", "disconnect"}) /\ (f = "") = (inside.fut = 0)   \* (Close/Disconnect report a cleanup error)
-     \/ inside.pc = "failed" /\ err # "" /\ f = ""
-  /\ G("C09", "CloseAndDisconnectReturnAfterCleanup", (m \in {"close", "disconnect"} /\ inside.pc = "done") => proc.pc \in {"off", "dead"})
-  /\ fname' = IF f = "" THEN fname ELSE fname \cup {<<f, inside.fut>>}
-  \* a resolution observed before the name was known must be the future's (final) state
-  /\ \A o \in obs : o[1] = f => \E x \in futs : x.n = inside.fut /\ G("C09", "FutureResolvesTruthfully", x.st = o[2])
-  /\ inside' = NoCall
-  /\ UNCHANGED <<link, up, down, obj, proc, waiting, sessC, futs, nfut, cfg, obs>>
+  \/ /\ \E w \in waiting : w.refused /\ w.a = a /\ w.m = m /\ waiting' = waiting \ {w}
+     /\ err # "" /\ f = ""
+     /\ UNCHANGED <<link, up, down, obj, proc, inside, sessC, futs, fname, nfut, cfg, obs>>
+  \/ /\ inside.a = a /\ inside.m = m
+     /\ \/ inside.pc = "done" /\ (err = "" \/ m \in {"close", "disconnect"}) /\ (f = "") = (inside.fut = 0)   \* (Close/Disconnect report a cleanup error)
+        \/ inside.pc = "failed" /\ err # "" /\ f = ""
+     /\ G("C09", "CloseAndDisconnectReturnAfterCleanup", (m \in {"close", "disconnect"} /\ inside.pc = "done") => proc.pc \in {"off", "dead"})
+     /\ fname' = IF f = "" THEN fname ELSE fname \cup {<<f, inside.fut>>}
+     \* a resolution observed before the name was known must be the future's (final) state
+     /\ \A o \in obs : o[1] = f => \E x \in futs : x.n = inside.fut /\ G("C09", "FutureResolvesTruthfully", x.st = o[2])
+     /\ inside' = NoCall
+     /\ UNCHANGED <<link, up, down, obj, proc, waiting, sessC, futs, nfut, cfg, obs>>
 
 NewFut(kind, id, stored, st) == [n |-> nfut + 1, kind |-> kind, id |-> id, st |-> st, stored |-> stored, late |-> (stored /\ obj.state # "connected")]
 
@@ -264,6 +269,15 @@ CClose(c) ==
         /\ UNCHANGED inside
   /\ GClose(c)
   /\ UNCHANGED <<up, down, waiting, sessC, fname, nfut, cfg, obs>>
+
+\* silent: cleanup() cancels the connect future and sets the state BEFORE it closes the connection (a CONNACK processed in between
+\* is ignored, an API call entering in between is refused)
+CleanupEarly ==
+  /\ obj.state # "disconnected"
+  /\ In("close", "start") \/ inside.pc = "end.close" \/ proc.pc = "die.close"
+  /\ futs' = {IF f.n = obj.connfut /\ f.st = "pending" /\ obj.state = "connecting" THEN [f EXCEPT !.st = "cancelled"] ELSE f : f \in futs}
+  /\ obj' = [obj EXCEPT !.state = "disconnected"]
+  /\ UNCHANGED <<link, up, down, proc, inside, waiting, sessC, fname, nfut, cfg, obs>>
 
 \* end(): tomb.Wait returned - the processor has ended (silent)
 EndWaitDone ==
